@@ -45,7 +45,7 @@ type (
 
 // Regex patterns
 const (
-	_FULLPATTERN  = `('[^']*'+|\<\-|\*|[\w]+|\[[^\[\]]*\]|\{[^\{\}]*\})`
+	_FULLPATTERN  = `('[^']*'+|\<\-|\*|[\w]+|\[[^\[\]]*\]|\{(?:'[^']*'|[^\{\}])*\})`
 	_ARRAYPATTERN = `\([^\)]*\)+|\w+`
 	_PIPEPATTERN  = `('[^']*'+|\w+)(!?\|\w+)?`
 )
@@ -270,6 +270,11 @@ func ParsePipe(match string) ([]*PipeSelector, error) {
 	slice := make([]*PipeSelector, 0)
 	for _, match := range matches {
 		split := strings.Split(match, string(_PIPE))
+		// a | inside a quoted key is part of the key
+		if end := strings.LastIndex(match, string(_SQ)); end > 0 && match[0] == byte(_SQ) {
+			split = strings.Split(match[end:], string(_PIPE))
+			split[0] = match[:end] + split[0]
+		}
 		key := split[0]
 		key = strings.TrimLeft(key, string(_SQ))
 		key = strings.TrimRight(key, string(_SQ))
@@ -422,12 +427,32 @@ func init() {
 	cache = make(map[string][][]any)
 }
 
+// splitContinuations splits a selector at its `::` continuation marks; a `::`
+// inside a quoted key is part of that key
+func splitContinuations(selector string) []string {
+	out := make([]string, 0)
+	quoted := false
+	start := 0
+	for i := 0; i < len(selector); i++ {
+		switch {
+		case selector[i] == byte(_SQ):
+			// a quote that is never closed does not open a key
+			quoted = !quoted && strings.IndexByte(selector[i+1:], byte(_SQ)) >= 0
+		case !quoted && strings.HasPrefix(selector[i:], "::"):
+			out = append(out, selector[start:i])
+			start = i + 2
+			i++
+		}
+	}
+	return append(out, selector[start:])
+}
+
 func ExecReader(data any, selector string) (any, error) {
 	mut.Lock()
 	parsed, ok := cache[selector]
 	if !ok {
 		allSelectors := make([][]any, 0)
-		selectors := strings.Split(selector, "::")
+		selectors := splitContinuations(selector)
 		for _, item := range selectors {
 			selectors, err := ParseSelector(item)
 			if err != nil {
